@@ -516,6 +516,18 @@ def run_check(mod, tier, seed, replay=None):
         tie["units"] = {u: ("ok" if v[0] else "FAILED " + v[1][:160]) for u, v in units.items()}
     except Exception as e:
         tie["lost"] = ["tie machinery: %s" % e]
+    if tier == "thorough" and not replay and tie.get("ok") and not tie.get("lost"):
+        # independent re-check of the compiled tie modules (as for the property modules above); a failure loses the tie,
+        # it does not raise an alarm by itself
+        try:
+            import tie_table as _tt
+            tmods = sorted(set(m for m, _, _ in _tt.tie_for(prop)))
+            okt, outt = leanchecker(tmods)
+            tie["leanchecker"] = "leanchecker %s: %s" % (" ".join(tmods), "ok" if okt else "FAILED " + outt[-300:])
+            if not okt:
+                tie["lost"].append("leanchecker on the tie modules: " + outt[-200:])
+        except Exception as e:
+            tie["leanchecker"] = "leanchecker on the tie modules not run: %s" % str(e)[-200:]
     if consts_broken:
         tie.setdefault("lost", []).extend("const %s: source pattern not found, last extracted value kept" % m for m in relevant_missing)
     if tie["lost"] and not replay:
@@ -622,6 +634,8 @@ def run_check(mod, tier, seed, replay=None):
     # 6. evidence
     ev = evidence(mod, tier, seed, t0, results, hist, len(theorems), discharged, broken_obligations, len(violations), lc_note, known=sorted(set(str(f.get("id") or f.get("key")) for f, _ in known)))
     ev["coverage"]["translation_tie"] = {"theorems_checked_against_regenerated_code": tie.get("ok", []), "lost": tie.get("lost", []), "units": tie.get("units", {})}
+    if tie.get("leanchecker"):
+        ev["coverage"]["translation_tie"]["leanchecker"] = tie["leanchecker"]
     ev["coverage"]["source_anchors_changed"] = anchors_changed
     ev["coverage"]["search_widened"] = bool(anchors_changed or broken_obligations)
     write_evidence(prop, ev)
